@@ -138,8 +138,12 @@ class ImageBatch(DataTensor):
                 split_grids = []
                 tensor_indices_or_sections = args[1]
                 if isinstance(tensor_indices_or_sections, int):
-                    for start in range(0, len(grids), tensor_indices_or_sections):
-                        split_grids.append(grids[start : start + tensor_indices_or_sections])
+                    sections = tensor_indices_or_sections
+                    start = 0
+                    for i in range(sections):
+                        num = len(grids) // sections + (1 if i < len(grids) % sections else 0)
+                        split_grids.append(grids[start : start + num])
+                        start += num
                 elif isinstance(tensor_indices_or_sections, Sequence):
                     indices = list(tensor_indices_or_sections)
                     for start, end in zip([0] + indices, indices + [len(grids)]):
